@@ -7,7 +7,7 @@ ASSUMPTIONS = [
     "select_spanned: the unbounded proof is the Verus obligation (Peekable over the sibling list modelled with std's peek/next semantics, `span` closure = field read, Span::containment's contract taken from the Kani proof); the Kani instances N = 1..4 on the compiled code are its bounded twins and give concrete counterexamples",
     "termination not proved by Kani",
 ]
-NOT_UNDER_CONTRACT = ["completion::complete / find traversal of the typed AST", "suggestion scoping other than as-patterns and record-pattern fields (ScopedMap::insert assumed to add a binding; `bound_names` of a nested pattern is uninterpreted)", "agreement of reported types with the checker other than the label of a record-pattern field (row lookup named by a helper)", "signature_help other than the argument index (first / position: std semantics assumed)", "get_metadata", "behaviour on Expr::Error nodes"]
+NOT_UNDER_CONTRACT = ["completion::complete / find traversal of the typed AST", "suggestion scoping other than as-patterns and record-pattern fields (ScopedMap::insert assumed to add a binding; `bound_names` of a nested pattern is uninterpreted)", "agreement of reported types with the checker other than the label of a record-pattern field (row lookup named by a helper)", "signature_help other than the argument index (first / position: std semantics assumed)", "get_metadata other than the lookup for a projected field", "behaviour on Expr::Error nodes"]
 POS = "base/src/pos.rs"
 COMP = "completion/src/lib.rs"
 
@@ -40,6 +40,8 @@ def obligations(tier):
                     clause="a record-pattern field `name = pattern` brings exactly the variables of the nested pattern into scope (not the label); a shorthand field binds its label"))
     out.append(dict(engine="verus", unit="completion", function="signature_help::argument_index", name="C20/completion/signature_help_argument_index", source=COMP + "::signature_help (the computation of the argument index)",
                     clause="total for every argument list including the empty one (applications with only implicit arguments); an index is reported iff the cursor is at or behind the start of the first argument"))
+    out.append(dict(engine="verus", unit="completion", function="get_metadata::projection_field", name="C20/completion/get_metadata_projection_field", source=COMP + "::get_metadata (projection arm)",
+                    clause="the metadata lookup for `record.field` is total: a record whose metadata has no entry for the field yields None, no panic"))
     out.append(dict(engine="verus", unit="completion", function="Suggest::on_pattern::As", name="C20/completion/Suggest_on_pattern_as", source=COMP + "::Suggest::on_pattern (arm Pattern::As)",
                     clause="binding the name of an as-pattern never panics, also when the pattern under it does not type check (only the total try_type_of may be used: env_type_of has the precondition `well typed`)"))
     ns = [1, 2, 3] if tier == "quick" else [1, 2, 3, 4]
